@@ -68,6 +68,8 @@ class C10(hc.PProp):
             return self.plan_update_churn(rng, tier, index)
         plan = hc.std_plan(rng, cache_conf(rng), hostile=rng.random() < 0.5)
         plan['conf']['lines'].append('collapsed_forwarding %s' % rng.choice(['off', 'off', 'on']))
+        if plan['conf']['cache'] in ('ufs', 'rock', 'both') and rng.random() < 0.3:
+            plan['conf']['lines'].append('memory_cache_mode disk')   # only what was read from disk is kept in memory: the first hit of an object is a disk hit
         nurl = rng.randint(4, 10)
         urls = []
         for u in range(nurl):
@@ -76,6 +78,9 @@ class C10(hc.PProp):
                    'lm': rng.random() < 0.6, 'bumps': sorted(rng.randint(1, 200) * 1000000 for _ in range(rng.choice([0, 0, 1, 2, 3])))}
             if rng.random() < 0.25:
                 url['body_pace'] = rng.choice([200, 2000]); url['sizes'] = [min(s, 70000) for s in url['sizes']]
+            if rng.random() < 0.25:
+                # response headers of 3.5-9 KB: swap metadata plus stored headers then span more than one 4 KB disk read when the entry is swapped in
+                url['extra'] = [('X-Pad-%d' % i, 'p' * rng.choice([150, 180, 220])) for i in range(rng.choice([18, 25, 40]))]
             urls.append(url)
         plan['urls'] = urls
         clients = []
